@@ -10,6 +10,7 @@ import (
 	"sort"
 	"strconv"
 	"strings"
+	"testing/synctest"
 
 	"github.com/ethereum/go-ethereum/common"
 	"github.com/ethereum/go-ethereum/common/hexutil"
@@ -153,23 +154,54 @@ type ethService struct {
 	c *conn
 }
 
-// request bookkeeping shared by all methods; returns an error if the connection is to be dropped
-// instead of replying (the pipe is closed before the error is returned, so no reply is written).
-// Caller holds w.mu.
+// request bookkeeping shared by all methods (caller holds w.mu; it is released while parked).
+// "Drop the connection instead of replying": the handler parks without replying until the whole
+// bubble is quiescent (the client has finished sending and waits for the reply); the driver then
+// closes the connection and releases the handler, whose reply goes nowhere. Closing from inside the
+// handler would race with the client's own send path (go-ethereum rpc.Client: a read error that
+// overtakes the reqSent notification of the request in flight), which no seed controls.
 func (s *ethService) admit(method, detail string) error {
 	w := s.w
 	w.reqCount++
 	if w.dropAt != 0 && w.reqCount == w.dropAt {
 		w.dropAt = 0
-		s.c.dropped = true
-		s.c.subLive = false
-		_ = s.c.srv.Close()
 		w.reqLog = append(w.reqLog, fmt.Sprintf("req#%d c%d %s %s -> CONNECTION DROPPED instead of reply", w.reqCount, s.c.id, method, detail))
 		w.fired = append(w.fired, "conn-drop-instead-of-reply:"+method)
 		w.endInvocation(method, true)
+		park := make(chan struct{})
+		w.parked = append(w.parked, parkedDrop{c: s.c, release: park})
+		w.mu.Unlock()
+		<-park
+		w.mu.Lock()
 		return errors.New("sim: connection dropped")
 	}
 	return nil
+}
+
+type parkedDrop struct {
+	c       *conn
+	release chan struct{}
+}
+
+// quiesce waits until every goroutine of the bubble is durably blocked, executing parked drops.
+func (w *world) quiesce() {
+	for {
+		synctest.Wait()
+		w.mu.Lock()
+		p := w.parked
+		w.parked = nil
+		for _, x := range p {
+			x.c.dropped, x.c.subLive = true, false
+			_ = x.c.srv.Close()
+		}
+		w.mu.Unlock()
+		if len(p) == 0 {
+			return
+		}
+		for _, x := range p {
+			close(x.release)
+		}
+	}
 }
 
 func (s *ethService) BlockNumber() (hexutil.Uint64, error) {
